@@ -210,8 +210,8 @@ def _c12_case(acc, case):
 def h_c12(tier, seed, hints):
     acc = Acc("C12", "explicit piece-length arguments (ints, numeral and non-numeral strings) through normalize / library / "
               "CLI / config routes, and sorted payload sizes for the automatic choice; distinct = (route, argument class)",
-              "ints -5..45, 2^k+{-1,0,1} for k<=45 (quick) / k<=70 (thorough), listed odd values; sizes 0..2^50 at thresholds +-1")
-    kmax = 45 if tier == "quick" else 70
+              "ints -5..45, 2^k+{-1,0,1} for k<=72 (quick) / k<=130 (thorough), listed odd values; sizes 0..2^50 at thresholds +-1")
+    kmax = 72 if tier == "quick" else 130
     ints = set(range(-5, 46))
     for k in range(0, kmax + 1):
         ints.update([2 ** k - 1, 2 ** k, 2 ** k + 1])
@@ -266,6 +266,10 @@ def small_trees(seed, pl=16384):
         ("single.bin", c("s", pl + 5)),
         ("dirA", {"a.bin": c("a", pl * 2 + 1), "b.txt": c("b", 10), "sub": {"c.dat": c("c", pl), "e": b""}}),
         ("dirB", {"x": c("x", 3 * pl + 100), "y": c("y", 16383)}),
+        # payload paths named like metafile fields (hostile naming) and a tree without any multi-piece file
+        ("fieldnames", {"source": {"main.c": c("m", 700), "info": c("i", pl + 3)}, "comment": c("cm", 20), "private": c("p", 1),
+                        "announce": {"url-list": c("u", 5)}, "httpseeds": b"", "pieces": c("pc", 2 * pl)}),
+        ("tiny", {"a": c("ta", 1), "b": c("tb", 5000), "c": b"", "d": c("td", pl - 1), "e": c("te", pl)}),
     ]
 
 
@@ -384,6 +388,13 @@ def _c07_case(acc, case, check_canonical=False):
     with tempdir() as d:
         name, tree = small_trees(0)[case.get("tree", 1)]
         mf, _ = make_metafile(d, name, tree, version, **opts)
+        if case.get("inject"):
+            # a metafile as another (specification-conformant) encoder may have written it: falsy-valued fields
+            m0 = ref.bdecode(open(mf, "rb").read(), strict=False)
+            for lvl, k, v in case["inject"]:
+                (m0[b"info"] if lvl == "info" else m0)[k.encode()] = v
+            with open(mf, "wb") as fh:
+                fh.write(ref.bencode(m0))
         cur, raw0 = load_strict(mf) if not case.get("nonstrict") else (ref.bdecode(open(mf, "rb").read(), strict=False), None)
         info_hash0 = hashlib.sha1(ref.info_span(open(mf, "rb").read())).digest()
         hash_must_hold = True
@@ -452,6 +463,19 @@ def _edit_cases(tier, prop):
                     if route == "cli" and not all(cli_expressible(r) for r in reqs):
                         continue
                     cases.append({"prop": prop, "version": version, "opts": opts, "optset": oi, "route": route, "reqs": reqs, "tree": 1})
+    # hostile payload naming, and falsy-valued fields written by another encoder
+    inject = [("info", "private", 0), ("top", "x-note", ""), ("top", "creation date", 0), ("info", "x-empty", []), ("top", "nodes", [])]
+    extra = [[{"source": ""}], [{"comment": ""}], [{"private": ""}], [{"announce": ""}, {"url-list": ""}], [{"announce": ["http://n/1"]}],
+             [{"httpseeds": ""}, {"comment": "c2"}], [{"url-list": ["http://w/9"], "httpseeds": ["http://h/9"]}]]
+    for version in (1, 2, 3):
+        for route in ("library", "cli"):
+            for reqs in extra:
+                reqs = [dict({f: None for f in EDIT_FIELDS}, **r) for r in reqs]
+                if route == "cli" and not all(cli_expressible(r) for r in reqs):
+                    continue
+                cases.append({"prop": prop, "version": version, "opts": base_opts[1], "optset": "names", "route": route, "reqs": reqs, "tree": 3})
+                cases.append({"prop": prop, "version": version, "opts": base_opts[0], "optset": "inject", "route": route, "reqs": reqs, "tree": 1,
+                              "inject": inject})
     return cases
 
 
@@ -528,8 +552,8 @@ def c06_trees(seed):
     pl = 16384
     c = lambda tag, n: content(seed, tag, n)      # noqa: E731
     many = {f"f{i:02d}": c(f"m{i}", pl * 2 + i * 7 + 1) for i in range(7)}
-    return small_trees(seed) + [("many", many), ("nested", {"z": {"b": c("zb", pl + 1), "a": c("za", 3 * pl)}, "a": c("a", 2 * pl + 5),
-                                                            "é": c("e", 5), "B": c("B", pl * 4)})]
+    return small_trees(seed)[:3] + [("many", many), ("nested", {"z": {"b": c("zb", pl + 1), "a": c("za", 3 * pl)}, "a": c("a", 2 * pl + 5),
+                                                            "é": c("e", 5), "B": c("B", pl * 4)})] + small_trees(seed)[3:]
 
 
 @harness("C06")
@@ -540,7 +564,7 @@ def h_c06(tier, seed, hints):
     optsets = [{}, {"announce": ["http://t/a"], "comment": "c", "private": True, "source": "s", "url_list": ["http://w"], "httpseeds": ["http://h"]},
                {"url_list": ["http://w/1", "http://w/2"]}, {"private": True}]
     for version in (1, 2, 3):
-        for ti in range(5):
+        for ti in range(7):
             for pl in ((16384,) if tier == "quick" else (16384, 32768)):
                 for oi, opts in enumerate(optsets):
                     for sd in ((seed,) if tier == "quick" else (seed, seed + 1, seed + 2)):
@@ -582,9 +606,15 @@ def _c17_case(acc, case):
         target, kind = case["at"], case["fault"]
         log = []
 
+        exdev = kind.startswith("exdev+")
+        if exdev:
+            kind = kind[6:]
+
         def hit(label):
             counter["n"] += 1
             log.append(label)
+            if exdev and label in ("rename", "replace"):
+                raise OSError(18, "Invalid cross-device link (injected)")
             if counter["n"] == target:
                 if kind == "die":
                     raise Fault(label)
@@ -636,7 +666,26 @@ def _c17_case(acc, case):
                 hit(nm)
                 return real[nm](*a, **k)
             return f
-        patches = [(os, "remove", wrap("remove")), (os, "unlink", wrap("unlink")), (os, "replace", wrap("replace")),
+        real["write"] = os.write
+        real["sendfile"] = getattr(os, "sendfile", None)
+
+        def p_oswrite(fd, data):
+            counter["n"] += 1
+            log.append("os.write")
+            if counter["n"] == target:
+                if kind == "short":
+                    return real["write"](fd, bytes(data)[:max(0, len(data) // 2)])      # short write, no exception
+                if kind == "die":
+                    real["write"](fd, bytes(data)[:max(0, len(data) // 2)])
+                    raise Fault("os.write")
+                raise OSError(28, "injected os.write fault")
+            return real["write"](fd, data)
+
+        def p_sendfile(*a, **k):
+            hit("sendfile")
+            return real["sendfile"](*a, **k)
+        patches = [(os, "write", p_oswrite)] + ([(os, "sendfile", p_sendfile)] if real["sendfile"] else []) + [
+                   (os, "remove", wrap("remove")), (os, "unlink", wrap("unlink")), (os, "replace", wrap("replace")),
                    (os, "rename", wrap("rename")), (builtins, "open", p_open), (os, "fdopen", p_fdopen),
                    (_tempfile, "mkstemp", wrap("mkstemp")), (_shutil, "copymode", wrap("copymode"))]
         saved = [(o, n, getattr(o, n)) for o, n, _ in patches]
@@ -682,7 +731,8 @@ def h_c17(tier, seed, hints):
     acc = Acc("C17", "fault injection into edit_torrent: OSError / short write / process death at the n-th file-system operation "
               "(open-for-write, write, remove, replace, rename, mkstemp, copymode), n = 1..(number of operations), and un-encodable "
               "values; afterwards the metafile path must hold the complete old or the complete edited metafile",
-              "3 versions x 4 requests x every operation index x {oserror, short, die}")
+              "3 versions x 4 requests x every operation index x {oserror, short, die}, also with rename/replace failing EXDEV "
+              "(cross-device) so that fall-back copy paths are exercised")
     reqs = [{"comment": "new comment"}, {"announce": ["http://n/1", "http://n/2"], "private": True},
             {"comment": "", "announce": ""}, {"url-list": "http://w/1 http://w/2", "source": "S"}]
     bad = [{"comment": 3.5}, {"url-list": [object()]}, {"announce": [b"ok", 1.5]}]
@@ -690,8 +740,9 @@ def h_c17(tier, seed, hints):
         for ri, req in enumerate(reqs):
             n = _c17_case(acc, {"prop": "C17", "version": version, "req": req, "at": 10 ** 6, "fault": "none"}) or 0
             acc.case(("nofault", version, ri))
-            for at in range(1, n + 1):
-                for kind in ("oserror", "short", "die"):
+            nx = _c17_case(acc, {"prop": "C17", "version": version, "req": req, "at": 10 ** 6, "fault": "exdev+none"}) or 0
+            for at in range(1, max(n, nx) + 1):
+                for kind in ("oserror", "short", "die") + (("exdev+oserror", "exdev+short", "exdev+die") if at <= nx else ()):
                     case = {"prop": "C17", "version": version, "req": req, "at": at, "fault": kind}
                     _c17_case(acc, case)
                     acc.case((version, ri, at, kind), case if version == 1 and ri == 0 else None)
